@@ -107,6 +107,16 @@ pub fn new() -> (PrioritySender, PriorityReceiver) {
 	)
 }
 
+/// The instant at which a grace period starting now runs out.
+///
+/// A grace period too long to be represented (like `Duration::MAX`) means "practically forever": it
+/// saturates to a far future instant instead of panicking the job task on overflow.
+fn deadline(grace: Duration) -> Instant {
+	let now = Instant::now();
+	now.checked_add(grace)
+		.unwrap_or_else(|| now + Duration::from_secs(86400 * 365 * 30))
+}
+
 #[derive(Debug, Clone)]
 pub struct Timer {
 	pub until: Instant,
@@ -117,7 +127,7 @@ pub struct Timer {
 impl Timer {
 	pub fn stop(grace: Duration, done: Flag) -> Self {
 		Self {
-			until: Instant::now() + grace,
+			until: deadline(grace),
 			done,
 			is_restart: false,
 		}
@@ -125,7 +135,7 @@ impl Timer {
 
 	pub fn restart(grace: Duration, done: Flag) -> Self {
 		Self {
-			until: Instant::now() + grace,
+			until: deadline(grace),
 			done,
 			is_restart: true,
 		}
